@@ -41,6 +41,7 @@ EXTENDS Naturals, Sequences, FiniteSets, TLC, Json
 
 CONSTANTS Domains,    \* names of the domains (DomTab) enumerated in this run
           Deep,       \* TRUE: the thorough bounds
+          Exhibit,    \* TRUE: defect domains cut down to the few items needed to exhibit the defect (xcap)
           PyPad,      \* comment lines at the top of the runtime twin (so that its line numbers differ)
           Emit
 
@@ -142,7 +143,7 @@ MidForms == {"def", "defdoc1", "defdocp3", "def1l2", "init", "cls", "clsh3", "cl
 TwinForms == {"defdoc2", "cls", "clsdoc1", "asg"}
 Dom(forms, decos, heads, maxlen, may) ==
   [forms |-> forms, decos |-> decos, heads |-> heads, maxlen |-> maxlen, may |-> may,
-   twin |-> FALSE, inpy |-> {TRUE}, leak |-> FALSE]
+   twin |-> FALSE, inpy |-> {TRUE}, leak |-> FALSE, xcap |-> 2]
 DomTab == [
   core   |-> Dom(CoreForms, {"none", "d1d2"}, HeadsOne, IF Deep THEN 4 ELSE 3, {}),
   wide   |-> Dom(CleanForms, IF Deep THEN {"none", "d1", "d1d1", "d2", "d1d2"} ELSE {"none", "d2"},
@@ -153,9 +154,10 @@ DomTab == [
                  {"none", "d1", "dp", "prop", "d1prop"}, HeadsOne, 3, {"span"}),
   leak   |-> [Dom({"if", "for", "else", "asg", "str1"} \cup (IF Deep THEN {"cls", "tup", "cmt"} ELSE {}), {"none"},
                   HeadsOne, IF Deep THEN 5 ELSE 4, {"doc"})
-                EXCEPT !.leak = TRUE],
+                EXCEPT !.leak = TRUE, !.xcap = 4],
   bom    |-> Dom({"def", "asg", "cls"}, {"none"}, HeadsBom, 2, {"load"}),
-  twin   |-> [Dom(TwinForms \cup (IF Deep THEN {"def", "cmt", "defh2", "ann0", "asgp3"} ELSE {}), {"none", "d1"},
+  twin   |-> [Dom(TwinForms \cup (IF Deep THEN {"def", "cmt", "defh2", "ann0", "asgp3"} ELSE {}),
+                  IF Deep THEN {"none", "d1"} ELSE {"none"},
                   {<<"none", 1>>} \cup (IF Deep THEN {<<"cmt", 0>>} ELSE {}), 3, {}) EXCEPT !.twin = TRUE],
   twinx  |-> [Dom(TwinForms, {"none", "d1"}, HeadsOne, IF Deep THEN 3 ELSE 2, {"file", "text"})
                 EXCEPT !.twin = TRUE, !.inpy = {TRUE, FALSE}]
@@ -182,7 +184,7 @@ VARIABLES dom,     \* the domain of this layout (fixed by Init)
 vars == <<dom, head, items, pl, cur, cur2, brk, stack, ref, impl>>
 
 Dm == DomTab[dom]
-MaxLen == Dm.maxlen
+MaxLen == IF Exhibit THEN Dm.xcap ELSE Dm.maxlen
 MaxDepth == 2
 Forms == Dm.forms
 Decos == Dm.decos
